@@ -965,3 +965,13 @@ func (l *Loaded) staticReach(root *ssa.Function, follow func(*ssa.Function) bool
 	}
 	return parent
 }
+
+func fmtInt(i int) string { return fmt.Sprint(i) }
+
+func constantInt(c *types.Const) (int64, bool) {
+	if c.Val().Kind() != constant.Int {
+		return 0, false
+	}
+	v, ok := constant.Int64Val(c.Val())
+	return v, ok
+}
